@@ -28,7 +28,12 @@ def format_fixed(x, prec, width=0, zero=False):
     ax = -x.term if neg else x.term
     V = z3.Int(eng.fresh_name('fx'))
     scaled = ax * (10 ** prec)
-    eng.add(z3.And(V >= 0, scaled - V <= z3.RealVal('1/2'), V - scaled <= z3.RealVal('1/2')))
+    if getattr(eng, 'exact_floats', False):
+        # exact-real mode: an exact decimal tie (dropped digits exactly 5) is rounded by the binary representation of the double,
+        # which this mode does not see: such inputs are cut from the path (outside the claim, stated by the harness)
+        eng.add(z3.And(V >= 0, scaled - V < z3.RealVal('1/2'), V - scaled < z3.RealVal('1/2')))
+    else:
+        eng.add(z3.And(V >= 0, scaled - V <= z3.RealVal('1/2'), V - scaled <= z3.RealVal('1/2')))
     p = 10 ** prec
     ip = SymInt(V / p)
     cells = list(SymStr.lift(render_int(ip)).cells)
